@@ -64,12 +64,23 @@ REGISTRY = {
                             "unknown lengths: n = min(input, output[, remaining]) by order reasoning, one aligned prefix copy "
                             "dst[..n] <- src[..n], (n, n) reported, remaining -= n / no store; completion tables (is_ended, "
                             "can_proceed) and the ended short-circuit."),
+    "C10": dict(modules=["rules_c10"], min_instances=10, trusted_base=TB,
+                explanation="(reason, guard) instance table: the four functions that record close reasons are interpreted abstractly "
+                            "(E4) and on every returning path the recorded reason set must equal what the guard atoms on that path "
+                            "demand (iff, both directions) (R10.1); E1 store summaries show nothing else modifies the list (R10.2); "
+                            "verdict tables for both end states and totality of the explanation map (R10.3); structural capacity "
+                            "rule: every push is once-per-flow or latched by a membership test, capacity >= bound (R10.4)."),
+    "C11": dict(modules=["rules_c11"], min_instances=5, trusted_base=TB,
+                explanation="E4 outcome table of Flow::<Await100>::try_read_100 over (parser verdict x status cell 100 / 101..999): "
+                            "returned count, awaiting / body-due flags and recorded reason per cell (R11.1); late-100 table of the "
+                            "response reader for awaiting in {true,false} (R11.3); successor edges and absence of reachable panics "
+                            "in the successor states from the typestate fixpoint (R11.2)."),
 }
 
 _PENDING = "check not built yet in this round (planned static rules: DESIGN.md section 4)"
 NOT_APPLICABLE = {
     "C01": _PENDING, "C02": _PENDING, "C03": _PENDING, "C05": _PENDING,
-    "C07": _PENDING, "C10": _PENDING, "C11": _PENDING,
+    "C07": _PENDING, 
     "C12": _PENDING, "C16": _PENDING,
     "C18": _PENDING, "C20": _PENDING,
     "C19": "quantitative liveness claim over two run-time lengths and hex-digit counts: no clause is visible in "
@@ -78,6 +89,21 @@ NOT_APPLICABLE = {
 }
 
 MANIFEST_META = {
+    "C11": dict(
+        technique="abstract interpretation over MIR (outcome tables) + typestate fixpoint results",
+        design_ref="DESIGN.md section 4 C11",
+        level_text="Outcome tables per parser verdict and status cell for the handshake reader and the late-100 skip; usability of "
+                   "both successor flows by the typestate fixpoint.",
+        level_note="NOT decided: at which byte httparse turns 'incomplete' into a verdict (the head parser is opaque: its "
+                   "Ok(None)/Ok(Some)/Err classes are inputs). Reviewed: the assert on a bare 100 after a refusal."),
+    "C10": dict(
+        technique="abstract interpretation over MIR (guard <=> event tables) + effect summaries + structural capacity rule",
+        design_ref="DESIGN.md section 4 C10",
+        level_text="Rule-instance table: each of the five reasons is recorded exactly under its condition on every path of the "
+                   "recording functions; nothing else writes the list; verdict = list non-empty in both end states; the fixed "
+                   "capacity suffices on every call history.",
+        level_note="Trusted: rustc MIR; the header match helper is a pure predicate whose inside (field-name filter, value "
+                   "equality) is checked structurally; what http's header equality matches is an axiom; the head parser is opaque."),
     "C04": dict(
         technique="abstract interpretation over MIR with order (<=) reasoning: bound obligations and accounting invariants on every path",
         design_ref="DESIGN.md section 4 C04",
